@@ -276,6 +276,38 @@ def check(run, repo, world):
            INSTANCE_TYPES, "instance-type registry %s, IEC 62386-103 Table 4 "
            "assigns %s" % (got, INSTANCE_TYPES), where(mod, ev.node),
            sample={"rule": "R-EVT-REG", "registry": got})
+    # a device module can be handed to the mapper's add_type in place of the
+    # number: the attribute add_type reads off it must exist in every module
+    # that registers an instance type, with that type as its value
+    mp_ = world.cls(HLP + ".DeviceInstanceTypeMapper")
+    at_ = mp_.methods["add_type"][1] if mp_ is not None and \
+        "add_type" in mp_.methods else None
+    if at_ is None:
+        raise AnalysisError("DeviceInstanceTypeMapper.add_type vanished")
+    tparam = None
+    for a_ in at_.args.args + at_.args.kwonlyargs:
+        if "type" in a_.arg and a_.arg != "self":
+            tparam = a_.arg
+    names_ = {x.args[1].value for x in ast.walk(at_) if isinstance(
+        x, ast.Call) and unparse(x.func) in ("hasattr", "getattr") and len(
+            x.args) >= 2 and unparse(x.args[0]) == tparam and isinstance(
+                x.args[1], ast.Constant) and isinstance(
+                    x.args[1].value, str)}
+    if len(names_) != 1:
+        raise AnalysisError("add_type: the attribute read off a module "
+                            "argument is not one constant name (%s)"
+                            % sorted(names_))
+    aname = names_.pop()
+    for k_, modname_ in sorted((reg and got or {}).items()):
+        b_ = world.lookup(modname_, aname)
+        v_ = folder.eval(b_.value, {}, modname_) if b_ is not None and \
+            getattr(b_, "kind", None) == "expr" else None
+        run.ob("R-EVT-REG", "%s.%s" % (modname_, aname), v_ == k_,
+               "module %s registers instance type %s but its `%s` (what "
+               "DeviceInstanceTypeMapper.add_type reads when the module is "
+               "given as the type) is %r: a map cannot be built from the "
+               "module" % (modname_, k_, aname, v_),
+               where(repo.mod(modname_), repo.mod(modname_).tree))
     occ = world.cls("dali.device.occupancy.OccupancyEvent")
     fed = occ.methods["from_event_data"][1]
     # valid exactly when bits 9:4 are zero: the function's paths, with the
